@@ -1,5 +1,371 @@
 package main
 
-import "verifharness/vkit"
+import (
+	"bytes"
+	"fmt"
+	"strings"
 
-func c24(r *vkit.Run) {}
+	"verifharness/ref/http1"
+	"verifharness/ref/httpfield"
+	"verifharness/vkit"
+)
+
+// C24: accepted HTTP/1 requests have unambiguous framing.
+//
+// bfe (bfe_http.ReadRequest + reading each Body to its end, the server's loop)
+// and the reference parser (ref/http1) both run over the same byte stream of
+// pipelined requests. For the k-th request, starting where the previous one
+// ended:
+//
+//   reference (strict) accepts  => if bfe accepts, (end offset, method, target,
+//                                  ordered field names, body) must be equal;
+//   reference rejects, class X  => if bfe rejects too (ReadRequest or the body
+//                                  read fails): agreed, the connection is dead;
+//                                  if bfe accepted:
+//       X in the categories the property names (whitespace before the colon,
+//         invalid field-name bytes, invalid/conflicting Content-Length,
+//         unsupported/misordered/repeated Transfer-Encoding) => VIOLATION sig X;
+//       X has a reading sanctioned by RFC 7230 (bare LF, obs-fold, whitespace
+//         lines before the first field ignored, repeated equal Content-Length,
+//         TE overriding CL, TE on HTTP/1.0, Host count) or a harmless literal
+//         reading (odd bytes in values / request-line, empty field-name kept as
+//         a field) => the reference re-parses with that tolerance; bfe must
+//         agree with the tolerant reading ("lenient but consistent", counted),
+//         otherwise VIOLATION sig "X:<what differs>";
+//       X is a chunk-grammar class => not judged here (C23 decides those);
+//       anything else => VIOLATION sig X.
+
+type c24Witness struct {
+	Stream   []byte      `json:"stream"`
+	StreamQ  string      `json:"stream_quoted"`
+	Cuts     []int       `json:"cuts,omitempty"`
+	ReadSize int         `json:"read_size"`
+	Request  int         `json:"request_index,omitempty"`
+	Offset   int         `json:"request_offset,omitempty"`
+	Ref      string      `json:"ref,omitempty"`
+	Bfe      interface{} `json:"bfe,omitempty"`
+}
+
+// classes for which bfe accepting the request is by itself the violation
+func c24MustReject(class string) bool {
+	switch class {
+	case http1.HeaderPrefix + httpfield.WSBeforeColon, http1.HeaderPrefix + httpfield.InvalidNameByte,
+		http1.CLConflicting, http1.CLInvalid, http1.CLTooLarge,
+		http1.TEMultipleLines, http1.TEChunkedRepeated, http1.TENotFinalChunked, http1.TENoChunked,
+		http1.TEUnsupportedCoding, http1.TEInvalidSyntax:
+		return true
+	}
+	return false
+}
+
+// c24Tolerate switches on the tolerance for class; false if there is none (or
+// it is already on).
+func c24Tolerate(o *http1.Options, class string) bool {
+	set := func(p *bool) bool {
+		if *p {
+			return false
+		}
+		*p = true
+		return true
+	}
+	switch class {
+	case http1.HeaderPrefix + httpfield.BareLF, "start-line:" + httpfield.BareLF:
+		return set(&o.Field.BareLF)
+	case http1.HeaderPrefix + httpfield.ObsFold:
+		return set(&o.Field.ObsFold)
+	case http1.HeaderPrefix + httpfield.LeadingWhitespace:
+		return set(&o.Field.LeadingWhitespace)
+	case http1.HeaderPrefix + httpfield.BareCR, http1.HeaderPrefix + httpfield.InvalidValueByte:
+		return set(&o.Field.ValueBytes)
+	case http1.HeaderPrefix + httpfield.EmptyName:
+		return set(&o.Field.EmptyName)
+	case http1.RequestLineMethod, http1.RequestLineTarget, http1.RequestLineVersion, http1.VersionUnsupported:
+		return set(&o.StartLineBytes)
+	case http1.LeadingEmptyLine:
+		return set(&o.SkipLeadingCRLF)
+	case http1.CLDuplicateEqual:
+		return set(&o.CLDuplicateEqual)
+	case http1.TEWithCL:
+		return set(&o.TEOverridesCL)
+	case http1.TEOnHTTP10:
+		return set(&o.TEOnHTTP10)
+	case http1.HostMissing, http1.HostMultiple:
+		return set(&o.HostCount)
+	}
+	return false
+}
+
+// c24CLShape refines cl:invalid by the shape of the offending value.
+func c24CLShape(fields []http1.Field) string {
+	for _, v := range http1.Get(fields, "Content-Length") {
+		switch {
+		case v == "":
+			return ":empty"
+		case v[0] == '+' || v[0] == '-':
+			return ":sign"
+		}
+		digits := true
+		for i := 0; i < len(v); i++ {
+			if v[i] < '0' || v[i] > '9' {
+				digits = false
+			}
+		}
+		if !digits && strings.TrimSpace(v) != v {
+			return ":space-like-bytes" // CR, VT, FF, NBSP, NEL around the digits
+		}
+		if !digits {
+			return ":other"
+		}
+	}
+	return ""
+}
+
+// c24Culprit picks, among the tolerated classes, the one a disagreement is
+// attributed to: the classes whose tolerant reading drops or keeps whole lines
+// come first (they are the ones that can move boundaries), then the order met.
+func c24Culprit(tolerated []string) string {
+	if len(tolerated) == 0 {
+		return "accepted"
+	}
+	for _, p := range []string{http1.HeaderPrefix + httpfield.LeadingWhitespace, http1.HeaderPrefix + httpfield.EmptyName, http1.HeaderPrefix + httpfield.ObsFold} {
+		for _, t := range tolerated {
+			if t == p {
+				return p
+			}
+		}
+	}
+	return tolerated[0]
+}
+
+// c24Sig names a disagreement on an accepted request: under the strict reading
+// the differing item is named; under a tolerant reading all items other than
+// the end of the header section collapse into "reinterpreted" (the detail is in
+// the message).
+func c24Sig(pre, what string) string {
+	if pre == "accepted" {
+		return pre + ":" + what
+	}
+	return pre + ":reinterpreted"
+}
+
+// c24OnlyWSAfterStartLine reports whether head is a start-line followed only
+// by SP / HTAB (and line ends).
+func c24OnlyWSAfterStartLine(head []byte) bool {
+	i := bytes.IndexByte(head, '\n')
+	if i < 0 || i+1 >= len(head) {
+		return false
+	}
+	ws := 0
+	for _, c := range head[i+1:] {
+		switch c {
+		case ' ', '\t':
+			ws++
+		case '\r', '\n':
+		default:
+			return false
+		}
+	}
+	return ws > 0
+}
+
+func c24LineDropping(class string) bool {
+	return class == http1.HeaderPrefix+httpfield.LeadingWhitespace || class == http1.HeaderPrefix+httpfield.EmptyName
+}
+
+func c24NamesEqual(bfe []string, ref []http1.Field) bool {
+	if len(bfe) != len(ref) {
+		return false
+	}
+	for i := range bfe {
+		if !strings.EqualFold(bfe[i], ref[i].Name) {
+			return false
+		}
+	}
+	return true
+}
+
+func bfeErrKind(s string) string {
+	for _, k := range []string{"malformed HTTP request", "malformed HTTP version", "malformed MIME header", "unsupported transfer encoding",
+		"too many transfer encodings", "bad Content-Length", "unexpected EOF", "invalid byte in chunk length", "malformed chunked encoding",
+		"exceed maxUriBytes", "invalid URI", "bad trailer key", "header line too long", "suspiciously long trailer", "EOF reading trailer", "parse "} {
+		if strings.Contains(s, k) {
+			return strings.ReplaceAll(strings.TrimSpace(k), " ", "-")
+		}
+	}
+	return "other"
+}
+
+// c24Stream judges one stream. It returns the number of requests on which
+// both parsers agreed to accept.
+func c24Stream(r *vkit.Run, stream []byte, cuts []int, readSize int) {
+	w := &c24Witness{Stream: stream, StreamQ: fmt.Sprintf("%q", clipB(stream, 1500)), Cuts: cuts, ReadSize: readSize}
+	var run bfeRun
+	if r.Try(func() interface{} { return w }, func() { run = runBfe(stream, cuts, readSize, 8) }) {
+		r.Evals(1)
+		return
+	}
+	if run.Stuck {
+		r.Violation("body-read:no-progress", "Body.Read returned (0, nil) 10000 times in a row", w)
+	}
+	off := 0
+	nontrivial := false
+	defer func() { r.Case(vkit.Hash64(string(stream)), nontrivial) }()
+	for k := 0; off < len(stream); k++ {
+		var bq *bfeReq
+		if k < len(run.Reqs) {
+			bq = &run.Reqs[k]
+		}
+		bfeAccepted := bq != nil && bq.BodyErr == ""
+		bfeErr := run.Err
+		if bq != nil && bq.BodyErr != "" {
+			bfeErr = "body: " + bq.BodyErr
+		}
+		w.Request, w.Offset = k, off
+		report := func(sig, what, ref string) {
+			w.Ref = ref
+			if bq != nil {
+				w.Bfe = map[string]interface{}{"start": bq.Start, "head_end": bq.HeadEnd, "end": bq.End, "method": bq.Method, "target": bq.Target,
+					"names": bq.Names, "body": fmt.Sprintf("%q", clipB(bq.Body, 200)), "chunked": bq.Chunked, "cl": bq.CL, "body_err": bq.BodyErr}
+			} else {
+				w.Bfe = map[string]interface{}{"err": run.Err}
+			}
+			r.Violation(sig, fmt.Sprintf("request #%d at offset %d: %s", k, off, what), w)
+		}
+		if bq != nil && bq.Start != off {
+			report("boundary:start-offset", fmt.Sprintf("bfe started this request at %d", bq.Start), "")
+			return
+		}
+		if bq == nil && run.Err == "" {
+			// bfe stopped because of the request cap
+			return
+		}
+		var opts http1.Options
+		var tolerated []string
+		for iter := 0; ; iter++ {
+			req, n, rej := http1.ParseRequestOpts(stream[off:], opts)
+			if rej == nil {
+				if len(req.Fields) > 0 {
+					nontrivial = true
+				}
+				if !bfeAccepted {
+					if len(tolerated) == 0 {
+						r.Count("ref_accept_bfe_reject", 1)
+						r.Count("ref_accept_bfe_reject:"+bfeErrKind(bfeErr), 1)
+					} else {
+						r.Count("both_reject", 1)
+					}
+					return
+				}
+				pre := c24Culprit(tolerated)
+				ref := fmt.Sprintf("tolerated=%v end=%d %s %s names=%q framing=%v body=%q", tolerated, off+n, req.Method, req.Target, http1.Names(req.Fields), req.Framing, clipB(req.Body, 200))
+				switch {
+				case bq.HeadEnd != off+req.HeadLen:
+					report(pre+":head-end", fmt.Sprintf("bfe ends the header section at %d, the reference (tolerating %v) at %d", bq.HeadEnd, tolerated, off+req.HeadLen), ref)
+					return
+				case bq.End != off+n:
+					report(c24Sig(pre, "end-offset"), fmt.Sprintf("bfe ends the request at %d, the reference (tolerating %v) at %d", bq.End, tolerated, off+n), ref)
+					return
+				case !bytes.Equal(bq.Body, req.Body):
+					report(c24Sig(pre, "body"), fmt.Sprintf("bfe body %q, reference (tolerating %v) %q", clipB(bq.Body, 60), tolerated, clipB(req.Body, 60)), ref)
+					return
+				case bq.Method != req.Method || bq.Target != req.Target:
+					report(c24Sig(pre, "request-line"), fmt.Sprintf("bfe %q %q, reference (tolerating %v) %q %q", bq.Method, bq.Target, tolerated, req.Method, req.Target), ref)
+					return
+				case !c24NamesEqual(bq.Names, req.Fields):
+					report(c24Sig(pre, "field-names"), fmt.Sprintf("bfe field names %q, reference (tolerating %v) %q", bq.Names, tolerated, http1.Names(req.Fields)), ref)
+					return
+				}
+				if len(tolerated) == 0 {
+					r.Count("agree_accept", 1)
+					r.Count("agree_accept:"+req.Framing.String(), 1)
+				} else {
+					r.Count("lenient_but_consistent", 1)
+					r.Count("lenient_but_consistent:"+strings.Join(tolerated, "+"), 1)
+				}
+				if r.WantSample() && k >= 1 && len(stream) < 400 {
+					r.Sample(map[string]interface{}{"stream": fmt.Sprintf("%q", stream), "requests_agreed": k + 1})
+				}
+				off += n
+				break
+			}
+			// the reference rejects
+			if iter == 0 {
+				r.Count("ref_reject:"+rej.Class, 1)
+				if rej.Offset > 0 && !rej.Incomplete {
+					nontrivial = true
+				}
+			}
+			if !bfeAccepted {
+				r.Count("both_reject", 1)
+				return
+			}
+			refS := fmt.Sprintf("tolerated=%v then %v", tolerated, rej)
+			switch {
+			case rej.Incomplete && c24OnlyWSAfterStartLine(stream[off:bq.HeadEnd]):
+				// the stream ends inside a whitespace-only line that directly follows the
+				// request-line: same defect as a complete such line (it ends the header section)
+				report(http1.HeaderPrefix+httpfield.LeadingWhitespace+":head-end", fmt.Sprintf("bfe took the unfinished whitespace-only line after the request-line as the end of the header section (at %d); the reference needs more bytes: %v", bq.HeadEnd, rej), refS)
+				return
+			case rej.Incomplete && len(tolerated) == 0:
+				report("incomplete:accepted", fmt.Sprintf("the reference needs more bytes (%v) but bfe accepted a complete request ending at %d", rej, bq.End), refS)
+				return
+			case off+rej.Offset >= bq.HeadEnd && !strings.HasPrefix(rej.Class, http1.BodyPrefix) && rej.Class != http1.HostMissing && rej.Class != http1.HostMultiple:
+				// bfe closed the header section before the byte the reference objects to:
+				// the two disagree about where the head ends
+				report(c24Culprit(tolerated)+":head-end", fmt.Sprintf("bfe ends the header section at %d, before the point where the reference (tolerating %v) rejects: %v", bq.HeadEnd, tolerated, rej), refS)
+				return
+			case c24LineDropping(c24Culprit(tolerated)):
+				// the tolerant reading already dropped/kept a line differently from bfe;
+				// whatever the reference objects to afterwards is seen through that difference
+				report(c24Culprit(tolerated)+":reinterpreted", fmt.Sprintf("bfe accepted %s; the reference (tolerating %v) goes on to reject: %v", bq, tolerated, rej), refS)
+				return
+			case c24MustReject(rej.Class):
+				sig := rej.Class
+				if sig == http1.CLInvalid {
+					sig += c24CLShapeRaw(stream[off+rej.Offset:])
+				}
+				report(sig, fmt.Sprintf("the reference must reject (%v), bfe accepted: %s", rej, bq), refS)
+				return
+			case strings.HasPrefix(rej.Class, http1.BodyPrefix):
+				r.Count("skipped_chunk_grammar_is_c23", 1)
+				return
+			case c24Tolerate(&opts, rej.Class):
+				tolerated = append(tolerated, rej.Class)
+				continue
+			default:
+				report(rej.Class, fmt.Sprintf("the reference (tolerating %v) rejects (%v) and no tolerant reading exists, bfe accepted: %s", tolerated, rej, bq), refS)
+				return
+			}
+		}
+	}
+}
+
+// c24CLShapeRaw finds the Content-Length values in a raw head without relying
+// on a successful parse.
+func c24CLShapeRaw(head []byte) string {
+	var fs []http1.Field
+	if i := bytes.Index(head, []byte("\n\r\n")); i >= 0 {
+		head = head[:i]
+	}
+	for _, f := range []string{"\r\n ", "\r\n\t", "\n ", "\n\t"} { // unfold
+		head = bytes.ReplaceAll(head, []byte(f), []byte(" "))
+	}
+	for _, ln := range bytes.Split(head, []byte("\n")) {
+		ln = bytes.TrimSuffix(ln, []byte("\r"))
+		i := bytes.IndexByte(ln, ':')
+		if i < 0 {
+			continue
+		}
+		if strings.EqualFold(string(ln[:i]), "Content-Length") {
+			v := ln[i+1:]
+			for len(v) > 0 && (v[0] == ' ' || v[0] == '\t') {
+				v = v[1:]
+			}
+			for len(v) > 0 && (v[len(v)-1] == ' ' || v[len(v)-1] == '\t') {
+				v = v[:len(v)-1]
+			}
+			fs = append(fs, http1.Field{Name: "Content-Length", Value: string(v)})
+		}
+	}
+	return c24CLShape(fs)
+}
